@@ -189,12 +189,14 @@ def make_sessions(ctx, n, nall):
     return out
 
 
-def lifted_big(ctx, s, r):
+def lifted_big(ctx, s, r, force=None):
     """large tables whose rows are copies of the rows of an ACCEPTED session: the accepted matrix, lifted"""
     from .. import lifted as lf
     ev = next(e for e in s["events"] if e["op"] == "Cdist")
     A, B = s["A"], s["B"]
     ba, bb = [(lf.boundary_size(r), 60), (50, lf.boundary_size(r + 2)), (1025, 1025)][r % 3]
+    if force:
+        ba, bb = force
     ia, ib = lf.index_map(ctx.rng, len(A), ba), lf.index_map(ctx.rng, len(B), bb)
     want = lf.lift_matrix(ev["D"], ia, ib)
     m = make_metric(s["cls"], s["wts"])
@@ -276,7 +278,7 @@ def run(ctx):
         ctx.exhaustive = True
         sessions = make_sessions(ctx, 40 if q else 400, len(ALPHA))
         verd = validate(ctx, sessions, vall)
-        nlift = 0
+        nlift, pd_big = 0, False
         for s in sessions:
             ctx.traces += 1
             ev = s["events"][0]
@@ -284,6 +286,11 @@ def run(ctx):
             if not tcm.failures(verd[s["sid"]]) and not any(e["raised"] for e in s["events"]) and nlift < (3 if q else 18):
                 nlift += 1
                 lifted_big(ctx, s, nlift)
+            if (not pd_big and ev["op"] == "Pdist" and s["wts"]["edit"][0] == s["wts"]["edit"][1] and not tcm.failures(verd[s["sid"]])
+                    and not any(e["raised"] for e in s["events"]) and len(s["A"]) >= 3):
+                # one condensed vector of more than two thousand rows (two million entries) in every run
+                pd_big = True
+                lifted_big(ctx, s, nlift + 1, force=((2049, 2500, 4097)[ctx.seed % 3] if q else 4097, 40))
             for l, op, clause in tcm.failures(verd[s["sid"]]):
                 ctx.violation(f"{s['cls']}/session/{op}/{clause}", f"{s['cls']}{s['wts']} {op} on {len(s['A'])}x{len(s['B'])} rows: {clause} {ev.get('exc','')}"[:400],
                               dict(kind="session", session=s))
